@@ -33,6 +33,13 @@ After every call
     the set of namespaces loaded on demand is part of the residue comparison, and so is the reset of the recorded
     xsi:type uses by a rebuild                                                -> which lookups consult / extend the loaded set.
 
+  * at every element end, for every collecting constraint, the type of the field selectors that extract the key
+    values (the stored selectors of `identity.elements[declaration]` when the element has its declared type, else
+    selectors built for the retyped copy) is compared with the model (`Step.fields`, `field_typing_neutral`), and the
+    typing of every entry of `identity.elements` is part of the residue comparison (`Inv.cacheOK`: the cache is a
+    function of its key).  Pool 3 turns a wrong typing into a wrong RESULT: key values equal in one value space and
+    distinct in the other, typed document first / untyped first, through substitution / wildcard / direct.
+
 A difference between shared and fresh results is a failing input unless it matches the listed finding C10-F3
 (`known_match`): the model of the code as it is predicts a differing observation for that call after that history
 AND the namespace lookups of both real runs are the ones the model describes.
@@ -247,9 +254,49 @@ D3 = [
     _t('<t:eS xl:nosuch="1"/>'),                                  # ... strict
 ]
 
+
+# pool 3: identity-selected elements that reach the scope through a substitution-group member (sub), a
+# wildcard-admitted global element (wild) or directly (dir), with or without an xsi:type whose value space differs
+# from the declared type's: key values equal in one value space and distinct in the other
+S4 = f'''<xs:schema xmlns:xs="{XS}">
+<xs:element name="root"><xs:complexType><xs:choice minOccurs="0" maxOccurs="unbounded">
+  <xs:element name="sub"><xs:complexType><xs:sequence><xs:element ref="head" minOccurs="0" maxOccurs="unbounded"/>
+       <xs:element ref="headS" minOccurs="0" maxOccurs="unbounded"/></xs:sequence></xs:complexType>
+     <xs:key name="ks"><xs:selector xpath="*"/><xs:field xpath="."/></xs:key></xs:element>
+  <xs:element name="wild"><xs:complexType><xs:sequence>
+       <xs:any namespace="##any" processContents="lax" minOccurs="0" maxOccurs="unbounded"/></xs:sequence></xs:complexType>
+     <xs:unique name="uw"><xs:selector xpath="*"/><xs:field xpath="."/></xs:unique></xs:element>
+  <xs:element name="dir"><xs:complexType><xs:sequence>
+       <xs:element name="it" type="xs:anySimpleType" minOccurs="0" maxOccurs="unbounded"/>
+       <xs:element name="its" type="xs:string" minOccurs="0" maxOccurs="unbounded"/></xs:sequence></xs:complexType>
+     <xs:key name="kd"><xs:selector xpath="*"/><xs:field xpath="."/></xs:key></xs:element>
+</xs:choice></xs:complexType></xs:element>
+<xs:element name="head" type="xs:anySimpleType"/>
+<xs:element name="member" type="xs:anySimpleType" substitutionGroup="head"/>
+<xs:element name="headS" type="xs:string"/>
+<xs:element name="memberS" type="xs:string" substitutionGroup="headS"/>
+<xs:element name="g" type="xs:anySimpleType"/>
+<xs:element name="gs" type="xs:string"/>
+</xs:schema>'''
+
+
+def _k(scope, el, ty, v1, v2):
+    a = f' xsi:type="{ty}"' if ty else ''
+    return (f'<root xmlns:xsi="{XSI}" xmlns:xs="{XS}"><{scope}><{el}{a}>{v1}</{el}><{el}{a}>{v2}</{el}></{scope}></root>')
+
+
+_ANY_CASES = [(None, '01', '1'), ('xs:integer', '01', '1'), ('xs:integer', '1', '2'), (None, '1.0', '1'),
+              ('xs:decimal', '1.0', '1'), (None, 'true', '1'), ('xs:boolean', 'true', '1'),
+              ('xs:date', '2020-01-01', '2020-01-02')]
+_STR_CASES = [(None, ' a', 'a'), ('xs:token', ' a', 'a')]
+D4_SCOPES = [('sub', 'member', 'memberS'), ('wild', 'g', 'gs'), ('dir', 'it', 'its')]
+D4 = [_k(sc, el, *c) for sc, el, _ in D4_SCOPES for c in _ANY_CASES] + \
+     [_k(sc, els, *c) for sc, _, els in D4_SCOPES for c in _STR_CASES]
+
 POOLS = [('xsi+identity+wildcard+substitution+fixed+ID (1.0)', '1.0', S1, D1),
          ('assert+fixed+wildcard+keyref+xsi (1.1)', '1.1', S2, D2),
-         ('wildcards lax/strict/skip x namespaces loaded on demand / at build / never (1.0)', '1.0', S3, D3)]
+         ('wildcards lax/strict/skip x namespaces loaded on demand / at build / never (1.0)', '1.0', S3, D3),
+         ('key fields: declared type vs xsi:type value spaces x substitution / wildcard / direct (1.0)', '1.0', S4, D4)]
 OPS = ['is_valid', 'iter_errors', 'validate', 'decode', 'decode_strict', 'to_objects', 'encode', 'stop', 'lazy',
        'kbint', 'exv', 'abandon']
 ABORT_OPS = ('stop', 'kbint', 'exv', 'abandon', 'tabort')
@@ -414,8 +461,20 @@ class Probe:
         context = loc.get('context')
         snap = self.snapshot(context) if context is not None else None
         gate = [i for i, en in snap if en] if snap is not None else []     # 1e49c64: every open scope collects
-        self.events.append(('e', elem, xsd_element, snap, gate, loc.get('xsd_type'),
-                            self.expected_attr_lookups(elem, xsd_element, loc.get('xsd_type'))))
+        xsd_type = loc.get('xsd_type')
+        # which field selectors extract the key values (elements.py:901-904, 949-953): the stored ones of the
+        # declaration when the element has its declared type and the declaration is a key of identity.elements
+        decl = xsd_element if getattr(xsd_element, 'ref', None) is None else xsd_element.ref
+        typing = []
+        for i in gate:
+            ty = xsd_type
+            if decl.type is xsd_type and decl in i.elements:
+                sels = i.elements[decl]
+                if sels:
+                    ty = sels[0].xsd_element.type
+            typing.append((i, ty))
+        self.events.append(('e', elem, xsd_element, snap, gate, xsd_type,
+                            self.expected_attr_lookups(elem, xsd_element, xsd_type), typing, decl.type))
         self.ended += 1
         if self.op == 'exv' and self.ended >= self.stop_at:
             raise Foreign()
@@ -537,6 +596,8 @@ def tabort(schema, xml: str, nth: int, p: Probe, kw: dict) -> Any:
 class Pool:
     def __init__(self, name: str, version: str, xsd: str, docs: list[str]):
         self.name, self.version, self.xsd, self.docs = name, version, xsd, docs
+        self.type_names: list = []
+        self.decl_ty: dict = {}
         self.ref = make_schema(version, xsd)           # never used for validation: introspection only
         self.ncomp = len(list(self.ref.iter_components()))
         self.base = self.observe(self.ref, self.index(self.ref), raw=True)
@@ -573,7 +634,7 @@ class Pool:
     def observe(self, schema, idx: dict, raw: bool = False) -> dict:
         """the identity-related residue of a schema object"""
         comps = list(schema.iter_components())
-        types, pairs, elems, sel = set(), set(), set(), set()
+        types, pairs, elems, sel, cache = set(), set(), set(), set(), set()
         for i, c in enumerate(comps):
             if hasattr(c, 'xsi_types') and getattr(c, 'ref', None) is None:
                 for t in c.xsi_types:
@@ -586,14 +647,17 @@ class Pool:
                     if id(ident) in idx:
                         sel.add((idx[id(ident)], i))
             if hasattr(c, 'selector') and hasattr(c, 'elements') and hasattr(c, 'fields'):
-                for e in c.elements:
+                for e, sels in c.elements.items():
                     k = self.key(idx, e)
                     if k is not None:
                         elems.add((i, k))
+                        if sels:
+                            cache.add((i, k, self.ty(idx, sels[0].xsd_element.type)))
         if raw:
             return {'elems': elems, 'sel': sel}
         return {'types': sorted(types), 'pairs': sorted(pairs), 'elems': sorted(elems - self.base['elems']),
-                'sel': sorted(sel - self.base['sel'])}
+                'sel': sorted(sel - self.base['sel']),
+                'cache': sorted(x for x in cache if (x[0], x[1]) not in self.base['elems'])}
 
     def widen_of(self, c: int, d: int, ti: int, name: str) -> list:
         """declarations `update_elements(XPathElement(name, type))` selects for constraint c (read-only port of
@@ -612,8 +676,20 @@ class Pool:
                         k = self.key(self.cidx, r)
                         if k is not None:
                             got.append(k)
+                            rr = r.ref if getattr(r, 'ref', None) is not None else r
+                            self.decl_ty[k] = self.ty(self.cidx, rr.type)
             self.widen[(c, d, ti)] = sorted(set(got))
         return self.widen[(c, d, ti)]
+
+    def ty(self, idx: dict, t) -> int:
+        """a number for a type: its component index, or (built-in and on-the-fly types) a number for its name"""
+        k = idx.get(id(t))
+        if k is not None:
+            return k
+        name = getattr(t, 'name', None) or ('?' + type(t).__name__)
+        if name not in self.type_names:
+            self.type_names.append(name)
+        return 2 * DUMMY + self.type_names.index(name)
 
     def ns(self, namespace: str) -> int:
         if namespace not in self.ns_names:
@@ -673,13 +749,17 @@ class Pool:
                                     self.widen_of(idx[id(c)], d, ti, xe.name)
                         steps.append(['x', d, ti, None])
             else:
-                _, elem, xe, ctxs, gate, _t, exp = ev
+                _, elem, xe, ctxs, gate, _t, exp, typing, dty = ev
                 expected[id(elem)] = exp
                 d = self.decl(idx, xe)
+                self.decl_ty[d] = self.ty(idx, dty)
                 if lazy and ctxs is not None:
                     steps.append(['s', snap(ctxs)])
                 steps.append(['c', d])
                 real.append({'ctx': snap(ctxs or []), 'gate': sorted(idx.get(id(i), -1) for i in gate)})
+                if gate and _t is not None:
+                    steps.append(['f', d, self.ty(idx, _t)])
+                    real.append({'typing': sorted([idx.get(id(i), -1), self.ty(idx, ty)] for i, ty in typing)})
                 if not lazy:
                     lv = []
                     for i in xe.identities:
@@ -739,6 +819,7 @@ class Pool:
         return {'complex': sorted(self.complex),
                 'wtab': [[c, d, t, w] for (c, d, t), w in sorted(self.widen.items())],
                 'base': sorted([c, d] for c, d in self.base['sel']),
+                'declTy': sorted([d, t] for d, t in self.decl_ty.items()),
                 'nsBase': [i for i, n in enumerate(self.ns_names) if n in self.ns_base],
                 'loadable': [i for i, n in enumerate(self.ns_names)
                              if n not in self.ns_base and self.has_location(n)]}
@@ -811,6 +892,8 @@ class PyModel:
                         self.apply(w)
             elif s[0] == 'c':
                 obs.append({'ctx': [list(p) for p in ctx], 'gate': sorted({c for c, en in ctx if en})})
+            elif s[0] == 'f':
+                obs.append({'typing': sorted([c, s[2]] for c, en in ctx if en)})
             elif s[0] == 'r':
                 obs.append({'seen': s[1] in sj['nsBase'] or s[1] in self.loaded})
                 stale = False
@@ -1075,6 +1158,7 @@ def _run_history(ctx: Ctx, pi: int, pool: Pool, hist: list, drv: Optional[Driver
                     'pairs': [tuple(x) for x in tr['pairs'] if x[0] < DUMMY],
                     'elems': sorted(set(tuple(x) for x in tr['elems']) - pool.base['elems']),
                     'sel': sorted(set(tuple(x) for x in tr['sel']) - bs),
+                    'cache': sorted(tuple(x) for x in tr['cache'] if (x[0], x[1]) not in pool.base['elems']),
                     'loaded': tr['loaded']}
             if mres != obs:
                 ctx.mismatch('residue after call %d (%s)' % (step_no, op), case, obs, mres)
@@ -1191,6 +1275,19 @@ def run(ctx: Ctx, driver_ok: bool) -> None:
             if not ctx.quick() or (d1 + d2 + ctx.seed) % 3 == 0:
                 h2.append(['decode', d2, 1])
             run_history(ctx, 2, pools[2], h2, drv, 'ns-pairs')
+    # field typing: within each scope of pool 3, every ordered pair of documents (typed first / untyped first)
+    p3 = pools[3]
+    groups: dict = {}
+    for di, doc in enumerate(p3.docs):
+        groups.setdefault(re.search(r'<(sub|wild|dir)>', doc).group(1), []).append(di)
+    ops3 = ('iter_errors', 'decode', 'validate', 'is_valid')
+    for sc, dis in sorted(groups.items()):
+        for d1 in dis:
+            for d2 in dis:
+                if ctx.quick() and (d1 * 3 + d2 + ctx.seed) % 2:
+                    continue
+                run_history(ctx, 3, p3, [[ops3[(d1 + d2 + ctx.seed) % 4], d1, 2], ['iter_errors', d2, 1]], drv, 'typing-pairs',
+                            deep=(d1 + d2) % 9 == 0)
     # calls aborted between two statements of the xsi:type block (KeyboardInterrupt from a trace function)
     for pi, di, follow in ((0, 0, 2), (0, 6, 0), (0, 17, 6), (0, 16, 2), (1, 6, 4)):
         for nth in range(1, ctx.pick(5, 9)):
